@@ -205,8 +205,14 @@ def run_http(ctx, shape, scheme, ctype, fault, tls, blen):
         opaque = object()
         target = {'name': 'srv1', 'nested': {'a': [1, {'b': 'c'}]},
                   'opaque': opaque, 'project_id': 'p'}
+        inner = None
+        if ctype == 'application/json' and bool(ctx.bool('nested_opaque')):
+            # only the JSON encoding can carry a nested opaque object (the
+            # form encoding refuses it); the caller's containers must stay
+            inner = object()
+            target['deep'] = {'h': inner, 'l': [inner, 1]}
         snap = copy.deepcopy({k: v for k, v in target.items()
-                              if k != 'opaque'})
+                              if k not in ('opaque', 'deep')})
         roles = ctx.roles('role', ['admin', 'member'], eager=True)
         creds = {'roles': roles, 'user_id': 'u', 'project_id': 'p'}
         raised = None
@@ -258,6 +264,10 @@ def run_http(ctx, shape, scheme, ctype, fault, tls, blen):
             exp_url = '%s://authz.example/srv1/check' % scheme
             ctx.require(url == exp_url, 'http:url', detail={'url': str(url)})
             exp_target = dict(snap, opaque={})
+            got_t = (kw.get('json') or {}).get('target')
+            if inner is not None and isinstance(got_t, dict):
+                got_t = {k: v for k, v in got_t.items() if k != 'deep'}
+                kw = dict(kw, json=dict(kw['json'], target=got_t))
             if ctype == 'application/json':
                 payload = kw.get('json')
                 okp = (kw.get('data') is None and isinstance(payload, dict)
@@ -294,9 +304,16 @@ def run_http(ctx, shape, scheme, ctype, fault, tls, blen):
                                         verify=repr(verify)))
             ctx.require('timeout' in kw, 'http:timeout-argument', detail=row)
         # -- the caller's target is untouched ----------------------------------
-        same = ({k: v for k, v in target.items() if k != 'opaque'} == snap
+        same = ({k: v for k, v in target.items()
+                 if k not in ('opaque', 'deep')} == snap
                 and target.get('opaque') is opaque and
-                set(target) == set(snap) | {'opaque'})
+                set(target) - {'deep'} == set(snap) | {'opaque'})
+        if inner is not None:
+            same = (same and isinstance(target.get('deep'), dict) and
+                    target['deep'].get('h') is inner and
+                    isinstance(target['deep'].get('l'), list) and
+                    len(target['deep']['l']) == 2 and
+                    target['deep']['l'][0] is inner)
         ctx.require(same, 'http:target-modified', detail=row)
     finally:
         _external.requests = saved
